@@ -25,7 +25,7 @@ def gen_tree(g, depth, maxdepth, root=False):
         n.leaves.append(dict(name=f"v{g.mark()}", ty=r.choice(LEAVES), ghost_k=None))
     if depth < maxdepth:
         for _ in range(r.randint(1 if root else 0, 3 if depth < 2 else 2)):
-            pool = [x for x in ["a", "ab", "abc", "b", "ba", "c", "x", "a1", "a12"] if x not in [c[0] for c in n.children]]
+            pool = [x for x in ["a", "ab", "abc", "b", "ba", "c", "x", "a1", "a12", "a\u00e9", "a\u00f1b", "ab\u00e9"] if x not in [c[0] for c in n.children]]
             n.children.append((r.choice(pool) if g.chance(0.6) else r.choice(["a", "b", "c"]) + str(g.mark()), gen_tree(g, depth + 1, maxdepth)))
     if not n.leaves and not n.children:
         n.leaves.append(dict(name=f"v{g.mark()}", ty=r.choice(LEAVES), ghost_k=None))
